@@ -32,7 +32,8 @@ Section LVM.
   Qed.
 
   Lemma post2_add_node member rnd :
-    base s0 -> n_msgs s0 = [] -> member <> n_id s0 -> (n_role s0 = Leader -> peer_get member (l_peers s0) = None) ->
+    base s0 -> n_msgs s0 = [] -> member <> n_id s0 ->
+    (n_role s0 = Leader -> forall c, n_conf s0 = Some c -> memb member (mb_members c) = false -> peer_get member (l_peers s0) = None) ->
     post2 (add_node s0 member rnd).
   Proof.
     intros Hb Hm Hne Hpg. pose proof (inv_start s0 inp boot RT VQ LQ DC RSP Hb Hm) as I.
@@ -40,7 +41,7 @@ Section LVM.
     unfold leader_add_node. pose proof (pure_verify_nop s0) as Pv.
     destruct (verify_nop_committed s0) as [[] | |]; simpl in *; auto; [| contradiction].
     destruct (n_conf s0) as [c |] eqn:Ec; [| simpl; auto].
-    destruct (memb member (mb_members c)); [simpl; exact I|].
+    destruct (memb member (mb_members c)) eqn:Emb; [simpl; exact I|]. specialize (Hpg c eq_refl Emb).
     destruct (negb (latest_conf_committed s0)); [simpl; exact I|].
     cbv zeta.
     match goal with |- post2 (bind (leader_propose (set_leader ?x1 _ (peer_set ?q _)) ?es) _) => set (s1 := x1); set (newp := q) end.
@@ -157,7 +158,8 @@ End LVM.
 (* ---------------------------------------------------------------- the event with a crash point, AddNode / RemoveNode included *)
 Definition evokM (s : node) (ev : event) : Prop :=
   match ev with
-  | EAddNode x _ => x <> n_id s /\ (n_role s = Leader -> peer_get x (l_peers s) = None)
+  | EAddNode x _ => x <> n_id s /\
+                    (n_role s = Leader -> forall c, n_conf s = Some c -> memb x (mb_members c) = false -> peer_get x (l_peers s) = None)
   | ERemoveNode _ => True
   | _ => evok4 ev
   end.
